@@ -1,11 +1,729 @@
-//! C11 (not built yet)
-use crate::report::{Disagreement, Run};
-use serde_json::Value;
+//! C11 Text inputs never crash the engine.
+//!
+//! Exhaustive families of strings (no sampling): (a) every string of length <= L over a tricky
+//! 35-character alphabet, (b) the complete edit-distance-1 neighbourhood of a formula corpus, (c) towers
+//! c^n and (cd)^n, (d) every number-format code of length <= L over the format alphabet and the
+//! edit-distance-1 neighbourhood of the built-in formats. Every string goes through every text entry point
+//! of the engine. Oracle: no panic, no abort, termination (worker subprocesses, `crate::isolate`).
 
-pub fn run(run: &mut Run) {
-    run.machinery_errors.push("C11: check not built yet".into());
+use crate::isolate::{self, CaseOut, Job};
+use crate::report::{Disagreement, Run, Tier};
+use ironcalc_base::expressions::lexer::LexerMode;
+use ironcalc_base::expressions::parser::{Node, Parser};
+use ironcalc_base::expressions::types::CellReferenceRC;
+use ironcalc_base::formatter::format::format_number;
+use ironcalc_base::language::get_language;
+use ironcalc_base::locale::get_locale;
+use ironcalc_base::{Model, UserModel};
+use serde_json::{json, Value};
+use std::collections::{BTreeSet, HashMap};
+
+pub const WATCHDOG_S: f64 = 60.0;
+
+/// Σ_f: operators, brackets, punctuation the lexer treats specially, reference / number letters,
+/// a two-byte character, an astral-plane character and NUL.
+pub const SIGMA_F: [&str; 35] = [
+    "+", "-", "*", "^", "&", "=", "<", "%", "(", ")", "{", "}", "[", "]", "!", ":", ";", ",", ".", "\"", "'",
+    "#", "@", "$", "\\", " ", "A", "R", "C", "E", "1", "0", "\u{e9}", "\u{1d49c}", "\u{0}",
+];
+
+/// Σ_n: the number-format alphabet.
+pub const SIGMA_N: [&str; 26] = [
+    "0", "#", "?", ".", ",", "%", "E", "e", "+", "-", "\"", "\\", "_", "*", "@", "[", "]", ";", "/", ":", "d",
+    "m", "y", "h", "s", " ",
+];
+
+/// (language, locale) pairs the formula entry points run in.
+pub const PAIRS: [(&str, &str); 4] = [("en", "en"), ("de", "de"), ("fr", "fr"), ("es", "en-GB")];
+
+pub const NUMBERS: [f64; 14] = [
+    0.0,
+    1.0,
+    -1.0,
+    0.5,
+    1e15,
+    1e-7,
+    1e308,
+    -1e308,
+    f64::NAN,
+    f64::INFINITY,
+    f64::NEG_INFINITY,
+    2_958_465.0,
+    2_958_466.0,
+    -0.0,
+];
+
+pub const TOWER_N: [usize; 5] = [10, 100, 1_000, 10_000, 100_000];
+
+/// Entry-point groups; a tower case runs one of them, a short string runs all.
+pub const ENTRIES: [&str; 7] = ["parse-a1", "parse-r1c1", "cursor", "cycle", "model", "usermodel", "format"];
+
+pub fn corpus() -> Vec<&'static str> {
+    vec![
+        "A1+1",
+        "$A$1*B$2-$C3",
+        "SUM(A1:A3)",
+        "IF(A1>1,\"x\",\"y\")",
+        "Sheet2!A1",
+        "'My Sheet'!$A$1:B2",
+        "A:A",
+        "1:1",
+        "A1:B2 B2:C3",
+        "A1#",
+        "@A1",
+        "R[1]C[-1]+R1C1",
+        "1.5E+10",
+        ".5%",
+        "\"a\"\"b\"&\"c\"",
+        "TRUE",
+        "#N/A",
+        "#REF!+#DIV/0!",
+        "{1,2;3,4}",
+        "-A1^2",
+        "2^3^2",
+        "A1<>B1",
+        "A1<=B1",
+        "(1+2)*3",
+        "LET(x,1,x+1)",
+        "LAMBDA(x,x+1)(2)",
+        "Table1[[#This Row],[Col]]",
+        "Table1[Col]",
+        "name1+1",
+        "SUM(Sheet1:Sheet2!A1)",
+        "INDEX(A1:B2,1,2):C3",
+        "IFERROR(1/0,)",
+        "TEXT(A1,\"0.00\")",
+        "[1]Sheet1!A1",
+        "SUM(A1,,B1)",
+        "10%%",
+        "1e3",
+        "'It''s'!A1",
+        "A1.B2",
+        "XFD1048576",
+    ]
 }
 
-pub fn replay(_case: &Value) -> Vec<Disagreement> {
-    vec![]
+fn builtin_formats() -> Vec<String> {
+    let mut v: BTreeSet<String> = BTreeSet::new();
+    for id in 0..60 {
+        v.insert(ironcalc_base::number_format::get_num_fmt(id, &[]));
+    }
+    for extra in [
+        "dd/mm/yyyy hh:mm:ss",
+        "[$-409]mmmm d, yyyy",
+        "[>=100]0;[<0]-0;0",
+        "0.0,,\"M\"",
+        "yyyy-mm-dd;@",
+    ] {
+        v.insert(extra.to_string());
+    }
+    v.into_iter().collect()
+}
+
+/// All single-character deletions, insertions and replacements (from `sigma`) of `s`, deduplicated by the caller.
+fn edits(s: &str, sigma: &[&str], out: &mut BTreeSet<String>) {
+    let chars: Vec<char> = s.chars().collect();
+    let n = chars.len();
+    let build = |pre: &[char], mid: &str, post: &[char]| -> String {
+        let mut t = String::with_capacity(s.len() + 4);
+        t.extend(pre.iter());
+        t.push_str(mid);
+        t.extend(post.iter());
+        t
+    };
+    for i in 0..n {
+        out.insert(build(&chars[..i], "", &chars[i + 1..]));
+        for c in sigma {
+            out.insert(build(&chars[..i], c, &chars[i + 1..]));
+        }
+    }
+    for i in 0..=n {
+        for c in sigma {
+            out.insert(build(&chars[..i], c, &chars[i..]));
+        }
+    }
+}
+
+/// The k-th string of length <= max over `sigma` in length-then-lexicographic order (k = 0 is the empty string).
+fn short_string(sigma: &[&str], max: usize, mut k: usize) -> String {
+    let a = sigma.len();
+    let mut len = 0;
+    let mut block = 1usize;
+    while len <= max {
+        if k < block {
+            break;
+        }
+        k -= block;
+        block *= a;
+        len += 1;
+    }
+    let mut idx = vec![0usize; len];
+    for i in (0..len).rev() {
+        idx[i] = k % a;
+        k /= a;
+    }
+    idx.iter().map(|i| sigma[*i]).collect()
+}
+
+fn count_short(a: usize, max: usize) -> usize {
+    let mut t = 0;
+    let mut b = 1;
+    for _ in 0..=max {
+        t += b;
+        b *= a;
+    }
+    t
+}
+
+pub struct C11Job {
+    len_f: usize,
+    len_n: usize,
+    n_short_f: usize,
+    edits_f: Vec<String>,
+    towers: Vec<(usize, usize, usize, usize)>, // (c, d or usize::MAX, n, entry)
+    n_short_n: usize,
+    edits_n: Vec<String>,
+    pub corpus_used: usize,
+    pub formats_used: usize,
+}
+
+impl C11Job {
+    pub fn new(tier: Tier) -> C11Job {
+        let thorough = tier.thorough();
+        let len_f = if thorough { 4 } else { 3 };
+        let len_n = if thorough { 4 } else { 3 };
+        let corp = corpus();
+        let corpus_used = if thorough { corp.len() } else { 8 };
+        let mut ef = BTreeSet::new();
+        for f in corp.iter().take(corpus_used) {
+            edits(f, &SIGMA_F, &mut ef);
+        }
+        let fmts = builtin_formats();
+        let mut en = BTreeSet::new();
+        for f in &fmts {
+            edits(f, &SIGMA_N, &mut en);
+        }
+        let mut towers = vec![];
+        for (e, entry) in ENTRIES.iter().enumerate() {
+            let sigma_len = if *entry == "format" { SIGMA_N.len() } else { SIGMA_F.len() };
+            let (max_single, max_pair) = tower_bounds(entry, thorough);
+            for &n in &TOWER_N {
+                if n <= max_single {
+                    for c in 0..sigma_len {
+                        towers.push((c, usize::MAX, n, e));
+                    }
+                }
+            }
+            for &n in &TOWER_N {
+                if n <= max_pair {
+                    for c in 0..sigma_len {
+                        for d in 0..sigma_len {
+                            if c != d {
+                                towers.push((c, d, n, e));
+                            }
+                        }
+                    }
+                }
+            }
+        }
+        C11Job {
+            len_f,
+            len_n,
+            n_short_f: count_short(SIGMA_F.len(), len_f),
+            edits_f: ef.into_iter().collect(),
+            towers,
+            n_short_n: count_short(SIGMA_N.len(), len_n),
+            edits_n: en.into_iter().collect(),
+            corpus_used,
+            formats_used: fmts.len(),
+        }
+    }
+    pub fn sizes(&self) -> Value {
+        json!({"short_formula_strings": self.n_short_f, "formula_edit_neighbours": self.edits_f.len(),
+            "tower_cases": self.towers.len(), "short_format_codes": self.n_short_n, "format_edit_neighbours": self.edits_n.len()})
+    }
+}
+
+/// Largest n of c^n and of (cd)^n per entry group. The parser entry points are linear in the input; F4 cycling and
+/// the number formatter are (at least) quadratic on this tree (0.1 s for 2000 characters), so their towers stay
+/// short enough that a legitimately slow answer stays far below the watchdog.
+fn tower_bounds(entry: &str, thorough: bool) -> (usize, usize) {
+    match entry {
+        "cycle" | "format" => (1_000, 100),
+        _ => (100_000, if thorough { 10_000 } else { 1_000 }),
+    }
+}
+
+fn tower_string(case: &Value) -> String {
+    let c = case["c"].as_str().unwrap_or("");
+    let d = case["d"].as_str().unwrap_or("");
+    let n = case["n"].as_u64().unwrap_or(0) as usize;
+    let mut s = String::with_capacity((c.len() + d.len()) * n);
+    for _ in 0..n {
+        s.push_str(c);
+        s.push_str(d);
+    }
+    s
+}
+
+struct Ctx<'a> {
+    case: &'a Value,
+    ds: Vec<Disagreement>,
+    calls: u64,
+    outcome: String,
+    nontrivial: bool,
+}
+
+impl Ctx<'_> {
+    /// Runs one call of the subject under a panic guard.
+    fn guard<R>(&mut self, entry: &str, what: &str, f: impl FnOnce() -> R) -> Option<R> {
+        self.calls += 1;
+        match crate::env::guarded(f) {
+            Ok(r) => Some(r),
+            Err(p) => {
+                let at = isolate::panic_sig(&p);
+                self.ds.push(Disagreement {
+                    sig: format!("panic entry={} {}", entry, at),
+                    case: self.case.clone(),
+                    detail: format!("{} panicked: {}\n{}", entry, p, what),
+                });
+                None
+            }
+        }
+    }
+}
+
+fn node_kind(n: &Node) -> &'static str {
+    match n {
+        Node::ParseErrorKind { .. } => "parse-error",
+        Node::ErrorKind(_) => "error-literal",
+        Node::NumberKind(_) => "number",
+        Node::StringKind(_) => "string",
+        Node::BooleanKind(_) => "boolean",
+        Node::ReferenceKind { .. } => "reference",
+        Node::RangeKind { .. } => "range",
+        Node::FunctionKind { .. } => "function",
+        Node::OpSumKind { .. } | Node::OpProductKind { .. } | Node::OpPowerKind { .. } => "arith",
+        Node::CompareKind { .. } => "compare",
+        Node::UnaryKind { .. } => "unary",
+        Node::ArrayKind(_) => "array",
+        _ => "other",
+    }
+}
+
+fn show(s: &str) -> String {
+    let t: String = s.chars().take(60).flat_map(|c| c.escape_debug()).collect();
+    if s.chars().count() > 60 {
+        format!("`{}…` ({} chars)", t, s.chars().count())
+    } else {
+        format!("`{}`", t)
+    }
+}
+
+fn cursors(len: usize, all: bool) -> Vec<usize> {
+    if all {
+        (0..=len + 1).collect()
+    } else {
+        let mut v = vec![0, 1, len / 2, len.saturating_sub(1), len, len + 1];
+        v.sort_unstable();
+        v.dedup();
+        v
+    }
+}
+
+fn run_parse(cx: &mut Ctx, s: &str, mode_r1c1: bool, stage: &mut dyn FnMut(&str)) {
+    let entry = if mode_r1c1 { "Parser::parse[R1C1]" } else { "Parser::parse[A1]" };
+    stage(entry);
+    let ctx_cell = CellReferenceRC {
+        sheet: "Sheet1".to_string(),
+        row: 2,
+        column: 2,
+    };
+    for (lang, loc) in PAIRS {
+        let language = get_language(lang).expect("language");
+        let locale = get_locale(loc).expect("locale");
+        let what = format!("input {} language={} locale={}", show(s), lang, loc);
+        let r = cx.guard(entry, &what, || {
+            let mut p = Parser::new(
+                vec!["Sheet1".to_string(), "Sheet2".to_string(), "My Sheet".to_string()],
+                vec![("name1".to_string(), None, "Sheet1!$A$1".to_string())],
+                HashMap::new(),
+                locale,
+                language,
+            );
+            if mode_r1c1 {
+                p.set_lexer_mode(LexerMode::R1C1);
+            }
+            let n = p.parse(s, &ctx_cell);
+            node_kind(&n)
+        });
+        if let Some(k) = r {
+            if k != "parse-error" {
+                cx.nontrivial = true;
+            }
+            cx.outcome.push_str(k);
+            cx.outcome.push('|');
+        }
+    }
+}
+
+fn run_cursor(cx: &mut Ctx, s: &str, mode: u8, stage: &mut dyn FnMut(&str)) {
+    let all = mode != 2;
+    stage("Parser::parse_at_cursor");
+    let ctx_cell = CellReferenceRC {
+        sheet: "Sheet1".to_string(),
+        row: 1,
+        column: 1,
+    };
+    let len = s.chars().count();
+    let pairs: &[(&str, &str)] = if mode == 2 { &PAIRS[..1] } else { &PAIRS[..2] };
+    for (lang, loc) in pairs {
+        let language = get_language(lang).expect("language");
+        let locale = get_locale(loc).expect("locale");
+        let mut p = Parser::new(
+            vec!["Sheet1".to_string()],
+            vec![],
+            HashMap::new(),
+            locale,
+            language,
+        );
+        for cur in cursors(len, all) {
+            let what = format!("input {} cursor={} language={}", show(s), cur, lang);
+            let r = cx.guard("Parser::parse_at_cursor", &what, || {
+                let c = p.parse_at_cursor(s, cur, &ctx_cell);
+                c.expecting.len()
+            });
+            if r.is_none() {
+                // the parser may be left in any state after a panic: take a new one
+                p = Parser::new(vec!["Sheet1".to_string()], vec![], HashMap::new(), locale, language);
+            }
+        }
+    }
+    stage("Model::formula_completion");
+    let what = format!("input {}", show(s));
+    if let Some(Ok(mut m)) = cx.guard("Model::new_empty", &what, || Model::new_empty("m", "en", "UTC", "en")) {
+        let text = format!("={}", s);
+        for cur in cursors(len + 1, all) {
+            let what = format!("formula {} cursor={}", show(&text), cur);
+            cx.guard("Model::formula_completion", &what, || {
+                m.formula_completion(0, 1, 1, &text, cur).map(|c| c.replace_from).ok()
+            });
+        }
+    }
+}
+
+/// `mode`: 0 = short string (every cursor pair, `=s` and `s`, two language/locale pairs), 1 = corpus neighbour
+/// (every cursor pair on `=s`, English), 2 = tower (six cursors, `=s` and `s`, English).
+fn run_cycle(cx: &mut Ctx, s: &str, mode: u8, stage: &mut dyn FnMut(&str)) {
+    stage("Model::cycle_reference");
+    let text = format!("={}", s);
+    let pairs: &[(&str, &str)] = if mode == 0 { &PAIRS[..2] } else { &PAIRS[..1] };
+    for (lang, loc) in pairs {
+        let what = format!("value {}", show(&text));
+        let m = match cx.guard("Model::new_empty", &what, || Model::new_empty("m", loc, "UTC", lang)) {
+            Some(Ok(m)) => m,
+            _ => return,
+        };
+        let plain = s.to_string();
+        let values: Vec<&String> = if mode == 1 { vec![&text] } else { vec![&text, &plain] };
+        for value in values {
+            let len = value.chars().count();
+            let cs = cursors(len, mode != 2);
+            for &a in &cs {
+                for &b in &cs {
+                    let what = format!("value {} start={} end={} language={}", show(value), a, b, lang);
+                    let r = cx.guard("Model::cycle_reference", &what, || {
+                        m.cycle_reference(value, a, b).map(|(t, _, _)| t.len()).ok()
+                    });
+                    if let Some(Some(_)) = r {
+                        cx.outcome.push('c');
+                    }
+                }
+            }
+        }
+    }
+}
+
+/// True when the text contains a whole-column or whole-row range (`A:A`, `$1:2`): evaluating arithmetic over one
+/// materialises a 10^6-cell array and its spill, which takes tens of seconds by design and is not a crash.
+fn has_open_range(s: &str) -> bool {
+    let ch: Vec<char> = s.chars().collect();
+    let is_tok = |c: char| c.is_ascii_alphanumeric() || c == '$';
+    for (i, c) in ch.iter().enumerate() {
+        if *c != ':' {
+            continue;
+        }
+        let mut a = i;
+        while a > 0 && is_tok(ch[a - 1]) {
+            a -= 1;
+        }
+        let mut b = i + 1;
+        while b < ch.len() && is_tok(ch[b]) {
+            b += 1;
+        }
+        let left: Vec<char> = ch[a..i].iter().copied().filter(|c| *c != '$').collect();
+        let right: Vec<char> = ch[i + 1..b].iter().copied().filter(|c| *c != '$').collect();
+        if left.is_empty() || right.is_empty() {
+            continue;
+        }
+        let all_alpha = |v: &[char]| v.iter().all(|c| c.is_ascii_alphabetic());
+        let all_digit = |v: &[char]| v.iter().all(|c| c.is_ascii_digit());
+        if (all_alpha(&left) && all_alpha(&right)) || (all_digit(&left) && all_digit(&right)) {
+            return true;
+        }
+    }
+    false
+}
+
+fn run_model(cx: &mut Ctx, s: &str, stage: &mut dyn FnMut(&str)) {
+    let text = format!("={}", s);
+    for (lang, loc) in PAIRS {
+        let what = format!("input {} language={} locale={}", show(s), lang, loc);
+        stage("Model::set_user_input");
+        let mut m = match cx.guard("Model::new_empty", &what, || Model::new_empty("m", loc, "UTC", lang)) {
+            Some(Ok(m)) => m,
+            _ => return,
+        };
+        let _ = m.set_user_input(0, 1, 2, "7".to_string());
+        let ok1 = cx.guard("Model::set_user_input", &what, || m.set_user_input(0, 1, 1, s.to_string()).is_ok());
+        let what2 = format!("input {} language={} locale={}", show(&text), lang, loc);
+        let ok2 = cx.guard("Model::set_user_input", &what2, || m.set_user_input(0, 2, 1, text.clone()).is_ok());
+        if ok1.is_none() || ok2.is_none() {
+            continue;
+        }
+        if has_open_range(s) {
+            cx.outcome.push_str("open-range|");
+            continue;
+        }
+        stage("Model::evaluate");
+        if cx.guard("Model::evaluate", &what2, || m.evaluate()).is_none() {
+            continue;
+        }
+        stage("Model::read-back");
+        for row in 1..=2 {
+            let r = cx.guard("Model::get_localized_cell_content", &what2, || {
+                m.get_localized_cell_content(0, row, 1).unwrap_or_default()
+            });
+            let v = cx.guard("Model::get_formatted_cell_value", &what2, || {
+                m.get_formatted_cell_value(0, row, 1).unwrap_or_default()
+            });
+            if let (Some(_), Some(v)) = (r, v) {
+                if lang == "en" {
+                    cx.outcome.push_str(&v.chars().take(12).collect::<String>());
+                    cx.outcome.push('|');
+                }
+            }
+        }
+    }
+}
+
+fn run_usermodel(cx: &mut Ctx, s: &str, stage: &mut dyn FnMut(&str)) {
+    if has_open_range(s) {
+        return;
+    }
+    stage("UserModel::set_user_input");
+    let text = format!("={}", s);
+    let what = format!("input {}", show(s));
+    let mut um = match cx.guard("UserModel::new_empty", &what, || UserModel::new_empty("m", "en", "UTC", "en")) {
+        Some(Ok(m)) => m,
+        _ => return,
+    };
+    let a = cx.guard("UserModel::set_user_input", &what, || um.set_user_input(0, 1, 1, s).is_ok());
+    let what2 = format!("input {}", show(&text));
+    let b = cx.guard("UserModel::set_user_input", &what2, || um.set_user_input(0, 2, 1, &text).is_ok());
+    if a.is_none() || b.is_none() {
+        return;
+    }
+    stage("UserModel::read-back");
+    cx.guard("UserModel::get_cell_content", &what2, || um.get_cell_content(0, 2, 1).unwrap_or_default());
+    cx.guard("UserModel::get_formatted_cell_value", &what2, || {
+        um.get_formatted_cell_value(0, 2, 1).unwrap_or_default()
+    });
+    cx.guard("UserModel::undo", &what2, || um.undo().is_ok());
+}
+
+fn locales() -> Vec<String> {
+    let mut v = ironcalc_base::get_supported_locales();
+    v.sort();
+    v
+}
+
+fn run_format(cx: &mut Ctx, code: &str, tower: bool, stage: &mut dyn FnMut(&str)) {
+    stage("format_number");
+    for (li, loc) in locales().into_iter().enumerate() {
+        // towers: two locales and four numbers (the formatter is super-linear in the length of the code)
+        if tower && li >= 2 {
+            break;
+        }
+        let locale = get_locale(&loc).expect("locale");
+        for (xi, x) in NUMBERS.into_iter().enumerate() {
+            if tower && !matches!(xi, 0 | 2 | 4 | 8) {
+                continue;
+            }
+            let what = format!("format code {} value={:?} locale={}", show(code), x, loc);
+            let r = cx.guard("format_number", &what, || {
+                let f = format_number(x, code, locale);
+                (f.error.is_none(), f.text)
+            });
+            if let Some((ok, text)) = r {
+                if ok {
+                    cx.nontrivial = true;
+                }
+                if x == 1.0 && loc == "en" {
+                    cx.outcome.push_str(if ok { "ok:" } else { "err:" });
+                    cx.outcome.push_str(&text.chars().take(16).collect::<String>());
+                }
+            }
+        }
+    }
+}
+
+fn fnv64(s: &str) -> u64 {
+    let mut h: u64 = 0xcbf29ce484222325;
+    for b in s.bytes() {
+        h ^= b as u64;
+        h = h.wrapping_mul(0x100000001b3);
+    }
+    h
+}
+
+impl Job for C11Job {
+    fn n_cases(&self) -> usize {
+        self.n_short_f + self.edits_f.len() + self.towers.len() + self.n_short_n + self.edits_n.len()
+    }
+    fn case_json(&self, idx: usize) -> Value {
+        let mut k = idx;
+        if k < self.n_short_f {
+            return json!({"family": "short", "s": short_string(&SIGMA_F, self.len_f, k)});
+        }
+        k -= self.n_short_f;
+        if k < self.edits_f.len() {
+            return json!({"family": "edit", "s": self.edits_f[k]});
+        }
+        k -= self.edits_f.len();
+        if k < self.towers.len() {
+            let (c, d, n, e) = self.towers[k];
+            let sigma: &[&str] = if ENTRIES[e] == "format" { &SIGMA_N } else { &SIGMA_F };
+            let (cs, dstr) = (sigma[c], if d == usize::MAX { "" } else { sigma[d] });
+            // class of the repeated construct, used to narrow abort / hang signatures
+            let both = format!("{}{}", cs, dstr);
+            let hint = if both.contains('(') {
+                "paren-nesting".to_string()
+            } else if both.contains('{') {
+                "brace-nesting".to_string()
+            } else if both.chars().any(|ch| "+-*/^&=<>".contains(ch)) {
+                "operator-chain".to_string()
+            } else {
+                format!("tower({})", both.escape_debug())
+            };
+            return json!({"family": "tower", "c": cs, "d": dstr, "n": n, "entry": ENTRIES[e], "hint": hint});
+        }
+        k -= self.towers.len();
+        if k < self.n_short_n {
+            return json!({"family": "format-short", "code": short_string(&SIGMA_N, self.len_n, k)});
+        }
+        k -= self.n_short_n;
+        match self.edits_n.get(k) {
+            Some(c) => json!({"family": "format-edit", "code": c}),
+            None => Value::Null,
+        }
+    }
+    fn run_case(&self, case: &Value, stage: &mut dyn FnMut(&str)) -> CaseOut {
+        let mut cx = Ctx {
+            case,
+            ds: vec![],
+            calls: 0,
+            outcome: String::new(),
+            nontrivial: false,
+        };
+        match case["family"].as_str().unwrap_or("") {
+            "short" | "edit" => {
+                let s = case["s"].as_str().unwrap_or("").to_string();
+                run_parse(&mut cx, &s, false, stage);
+                run_parse(&mut cx, &s, true, stage);
+                let mode = if case["family"] == "short" { 0 } else { 1 };
+                run_cursor(&mut cx, &s, mode, stage);
+                run_cycle(&mut cx, &s, mode, stage);
+                run_model(&mut cx, &s, stage);
+                run_usermodel(&mut cx, &s, stage);
+            }
+            "tower" => {
+                let s = tower_string(case);
+                match case["entry"].as_str().unwrap_or("") {
+                    "parse-a1" => run_parse(&mut cx, &s, false, stage),
+                    "parse-r1c1" => run_parse(&mut cx, &s, true, stage),
+                    "cursor" => run_cursor(&mut cx, &s, 2, stage),
+                    "cycle" => run_cycle(&mut cx, &s, 2, stage),
+                    "model" => run_model(&mut cx, &s, stage),
+                    "usermodel" => run_usermodel(&mut cx, &s, stage),
+                    "format" => run_format(&mut cx, &s, true, stage),
+                    _ => {}
+                }
+                // a tower is non-trivial when it is long enough to matter
+                cx.nontrivial = case["n"].as_u64().unwrap_or(0) >= 1000;
+            }
+            "format-short" | "format-edit" => {
+                let code = case["code"].as_str().unwrap_or("").to_string();
+                run_format(&mut cx, &code, false, stage);
+            }
+            _ => {}
+        }
+        CaseOut {
+            ds: cx.ds,
+            nontrivial: cx.nontrivial,
+            outcome: fnv64(&cx.outcome),
+            calls: cx.calls,
+        }
+    }
+}
+
+pub fn job(tier: Tier) -> Box<dyn Job> {
+    Box::new(C11Job::new(tier))
+}
+
+pub fn run(run: &mut Run) {
+    let job = C11Job::new(run.tier);
+    let n = job.n_cases();
+    let sum = isolate::run_isolated(
+        run,
+        "C11",
+        n,
+        &|i| job.case_json(i),
+        &isolate::Opts {
+            watchdog_s: WATCHDOG_S,
+            batch: if run.tier.thorough() { 16_384 } else { 2_048 },
+            wall_cap_s: if run.tier.thorough() { 1200.0 } else { 150.0 },
+        },
+    );
+    run.evaluations = sum.cases_run;
+    run.states = sum.cases_run;
+    run.traces = sum.cases_run;
+    run.transitions = sum.calls;
+    run.nontrivial = sum.nontrivial;
+    run.distinct_outcomes = sum.outcomes.len() as u64;
+    run.exhaustive = run.cap_hit.is_none();
+    run.bound = json!({
+        "formula_alphabet": SIGMA_F.to_vec(), "formula_length": job.len_f,
+        "corpus_formulas": job.corpus_used, "towers_n": TOWER_N, "tower_entry_groups": ENTRIES,
+        "format_alphabet": SIGMA_N.to_vec(), "format_length": job.len_n, "builtin_formats": job.formats_used,
+        "numbers": NUMBERS.iter().map(|x| format!("{:?}", x)).collect::<Vec<_>>(), "locales": locales(),
+        "language_locale_pairs": PAIRS, "cases": job.sizes(),
+        "isolation": {"worker_processes": sum.worker_processes, "deaths": sum.deaths, "hangs": sum.hangs, "transient_losses": sum.transient,
+            "watchdog_s": WATCHDOG_S, "rlimit_as_gib": 4, "stack_mib": 8},
+    });
+    run.rule = "every string of the stated families through Parser::parse (A1 and R1C1 lexer), Parser::parse_at_cursor and Model::formula_completion at every cursor 0..=len+1, Model::cycle_reference at every (start,end) pair in 0..=len+1 (incl. start>end), Model::set_user_input + evaluate + read-back and UserModel::set_user_input (+undo), in four language/locale pairs; every format code x 14 numbers (incl. NaN, +-inf, +-1E308, the date limits) x all locales through format_number. Towers run one entry group per case at cursors {0,1,len/2,len-1,len,len+1}. non-trivial = the string is accepted by at least one parser mode / the format code formats at least one number without error / a tower of >= 1000 repetitions".into();
+    for i in [n / 7, n / 2, n.saturating_sub(1)] {
+        if n > 0 {
+            run.sample(job.case_json(i));
+        }
+    }
+    run.assume("strings longer than the stated length that are neither edit-distance-1 neighbours of the corpus nor towers are not covered (the set of all Unicode strings is infinite)");
+    run.assume("termination = each case finishes within the per-case watchdog in a worker with RLIMIT_AS 4 GiB and an 8 MiB stack");
+    run.assume("parse_formatted_number is crate-private; it is reached through set_user_input only");
+    run.assume("inputs containing a whole-column or whole-row range (A:A, 1:1) are parsed, completed, cycled and stored through Model::set_user_input but not evaluated (and not given to UserModel, which evaluates on input): arithmetic over such a range materialises a 10^6-cell array, slow by design");
+    run.assume("towers for F4 cycling and the number formatter stop at 1000 (c^n) / 100 ((cd)^n) repetitions: both are super-linear on this tree (0.1 s per call at 2000 characters), which is slowness, not a crash");
+}
+
+pub fn replay(case: &Value) -> Vec<Disagreement> {
+    isolate::replay_isolated("C11", case, WATCHDOG_S)
 }
